@@ -22,6 +22,8 @@
 (* compared), the default stream if none matches; a view with the drop     *)
 (* aggregation contributes no data-carrying stream.                        *)
 (*                                                                         *)
+(* Name selectors: exact | prefix.* | .*suffix | * | one regular-expression *)
+(* operator alone (alternation, ? + * [..] . \. ^$ {n}), full match.        *)
 (* Left open (not generated / not compared): a meter WITHOUT version or    *)
 (* schema against a selector WITH one (Open); monotonicity, temporality,   *)
 (* values; regex metacharacters inside "exact" names.                      *)
@@ -58,14 +60,74 @@ DefaultKind(t) == CASE t \in {"Counter", "UpDownCounter", "ObsCounter", "ObsUpDo
 Aggs    == {"default", "sum", "last", "hist", "drop"}
 Filters == {"none", "k1", "empty"}                    \* no filter | allow-list {k1} | allow-list {}
 
-\* instrument names are token pairs <<prefix, suffix>>; selectors: exact, prefix.*, .*suffix, *
+\* instrument names are token sequences; selectors: exact, prefix.*, .*suffix, * and ("rx") a regular
+\* expression that must match the WHOLE name ("name (exact or pattern)")
 AllNames == {<<"x", "a">>, <<"x", "b">>, <<"y", "a">>}
 P(k, s)  == [k |-> k, s |-> s]
 AllPats  == {P("exact", n) : n \in AllNames \cup {<<"z", "z">>}} \cup {P("prefix", <<"x">>), P("suffix", <<"a">>), P("all", <<>>)}
+
+\* Regular-expression selectors.  A pattern is a tree over name tokens; Lang(t, L) is the set of token
+\* sequences of length <= L it denotes (the textbook semantics; nothing flavour specific: full match
+\* only, so greediness, captures, anchors inside a full match etc. do not matter).  The replayer
+\* renders a tree with one character per token, so that every operator stands ALONE in the pattern
+\* text:  alt a|b   opt a?   plus a+   star a*   cls [ab]   any .   escdot \.   anch ^..$   rep a{n}
+RxAlphabet == {"x", "y", "a", "b", "z", ".", "_"}
+Tk(c) == <<"tok", c>>
+Sq(ts) == <<"seq", ts>>
+Cat(A, B, L) == {w \in {u \o v : u \in A, v \in B} : Len(w) <= L}
+RECURSIVE PlusSet(_, _, _)
+PlusSet(A, acc, L) == LET nxt == acc \cup Cat(acc, A, L) IN IF nxt = acc THEN acc ELSE PlusSet(A, nxt, L)
+RECURSIVE RepSet(_, _, _)
+RepSet(A, n, L) == IF n = 0 THEN {<<>>} ELSE Cat(RepSet(A, n - 1, L), A, L)
+RECURSIVE Lang(_, _)
+RECURSIVE SeqLang(_, _)
+SeqLang(ts, L) == IF ts = <<>> THEN {<<>>} ELSE Cat(Lang(Head(ts), L), SeqLang(Tail(ts), L), L)
+Lang(t, L) ==
+  CASE t[1] = "tok"    -> {<<t[2]>>}
+    [] t[1] = "any"    -> {<<c>> : c \in RxAlphabet}
+    [] t[1] = "cls"    -> {<<t[2][j]>> : j \in 1..Len(t[2])}
+    [] t[1] = "escdot" -> {<<".">>}
+    [] t[1] = "seq"    -> SeqLang(t[2], L)
+    [] t[1] = "alt"    -> Lang(t[2], L) \cup Lang(t[3], L)
+    [] t[1] = "opt"    -> {<<>>} \cup Lang(t[2], L)
+    [] t[1] = "plus"   -> PlusSet(Lang(t[2], L), Lang(t[2], L), L)
+    [] t[1] = "star"   -> {<<>>} \cup PlusSet(Lang(t[2], L), Lang(t[2], L), L)
+    [] t[1] = "rep"    -> RepSet(Lang(t[2], L), t[3], L)
+    [] t[1] = "anch"   -> Lang(t[2], L)
+\* P("rx", <<label, tree>>): one pattern per operator, the operator being the only syntax in it
+Rx(label, tree) == P("rx", <<label, tree>>)
+RxPats == {Rx("alt",     <<"alt", Sq(<<Tk("x"), Tk("a")>>), Sq(<<Tk("y"), Tk("a")>>)>>),      \* xa|ya
+           Rx("altone",  <<"alt", Sq(<<Tk("x"), Tk("b")>>), Sq(<<Tk("z"), Tk("z")>>)>>),      \* xb|zz
+           Rx("altsub",  <<"alt", Tk("x"), Sq(<<Tk("x"), Tk("a"), Tk("a")>>)>>),               \* x|xaa
+           Rx("opt",     Sq(<<Tk("x"), Tk("a"), <<"opt", Tk("a")>>>>)),                        \* xaa?
+           Rx("plus",    Sq(<<Tk("x"), <<"plus", Tk("a")>>>>)),                                \* xa+
+           Rx("star",    Sq(<<Tk("x"), <<"star", Tk("a")>>>>)),                                \* xa*
+           Rx("cls",     Sq(<<Tk("x"), <<"cls", <<"a", "b">>>>>>)),                            \* x[ab]
+           Rx("any",     Sq(<<Tk("x"), <<"any">>, Tk("a")>>)),                                 \* x.a
+           Rx("escdot",  Sq(<<Tk("x"), <<"escdot">>, Tk("a")>>)),                              \* x\.a
+           Rx("anch",    <<"anch", Sq(<<Tk("x"), Tk("a")>>)>>),                                \* ^xa$
+           Rx("rep",     Sq(<<Tk("x"), <<"rep", Tk("a"), 2>>>>))}                              \* xa{2}
+RxNames == {<<"x">>, <<"x", "a">>, <<"x", "a", "a">>, <<"x", "b">>, <<"y", "a">>, <<"x", ".", "a">>, <<"x", "_", "a">>}
+RxMatch(p, n) == n \in Lang(p.s[2], Len(n))
+\* the intended relation, written out by hand (a cross-check of Lang, evaluated by TLC at start-up)
+RxTable(l) == CASE l = "alt"    -> {<<"x", "a">>, <<"y", "a">>}
+                [] l = "altone" -> {<<"x", "b">>}
+                [] l = "altsub" -> {<<"x">>, <<"x", "a", "a">>}
+                [] l = "opt"    -> {<<"x", "a">>, <<"x", "a", "a">>}
+                [] l = "plus"   -> {<<"x", "a">>, <<"x", "a", "a">>}
+                [] l = "star"   -> {<<"x">>, <<"x", "a">>, <<"x", "a", "a">>}
+                [] l = "cls"    -> {<<"x", "a">>, <<"x", "b">>}
+                [] l = "any"    -> {<<"x", "a", "a">>, <<"x", ".", "a">>, <<"x", "_", "a">>}
+                [] l = "escdot" -> {<<"x", ".", "a">>}
+                [] l = "anch"   -> {<<"x", "a">>}
+                [] l = "rep"    -> {<<"x", "a", "a">>}
+ASSUME RxTableOK == \A p \in RxPats : {n \in RxNames : RxMatch(p, n)} = RxTable(p.s[1])
+
 NameMatch(p, n) == CASE p.k = "all"    -> TRUE
                      [] p.k = "exact"  -> n = p.s
-                     [] p.k = "prefix" -> SubSeq(n, 1, Len(p.s)) = p.s
-                     [] p.k = "suffix" -> SubSeq(n, Len(n) - Len(p.s) + 1, Len(n)) = p.s
+                     [] p.k = "prefix" -> Len(n) >= Len(p.s) /\ SubSeq(n, 1, Len(p.s)) = p.s
+                     [] p.k = "suffix" -> Len(n) >= Len(p.s) /\ SubSeq(n, Len(n) - Len(p.s) + 1, Len(n)) = p.s
+                     [] p.k = "rx"     -> RxMatch(p, n)
 AllUnits   == {"", "ms", "By"}                        \* selector "" = any unit
 UnitMatch(sel, u) == sel = "" \/ sel = u
 
@@ -184,7 +246,8 @@ ExactlyMatching ==
           /\ \/ views[k].pat.k = "all"
              \/ views[k].pat.k = "exact" /\ views[k].pat.s = i.name
              \/ views[k].pat.k = "prefix" /\ views[k].pat.s = <<i.name[1]>>
-             \/ views[k].pat.k = "suffix" /\ views[k].pat.s = <<i.name[2]>>)
+             \/ views[k].pat.k = "suffix" /\ views[k].pat.s = <<i.name[Len(i.name)]>>
+             \/ views[k].pat.k = "rx" /\ i.name \in RxTable(views[k].pat.s[1]))
 \* name, description, aggregation, attribute filter of the view - and nothing else - shape the stream
 OnlyViewShapes ==
   \A j \in 1..Len(insts) : LET i == insts[j] IN
@@ -248,13 +311,17 @@ TagCond(w, i) ==
     [] w = "SuffixHit"     -> \E k \in ms : views[k].pat.k = "suffix"
     [] w = "Rename"        -> \E k \in ms : views[k].name # "" /\ views[k].desc # "" /\ views[k].agg \notin {"default", "drop"}
 CaseTags(i) == {w \in TagNames : TagCond(w, i)}
+\* regular-expression selectors: <<"hit", label>> the view applies, <<"miss", label>> it does not and
+\* ONLY because of the name pattern
+RxTags(i) == {<<IF Matches(views[k], i) THEN "hit" ELSE "miss", views[k].pat.s[1]>> :
+                k \in {k \in 1..Len(views) : views[k].pat.k = "rx" /\ Matches(Relax(views[k], "pat"), i)}}
 
 \* Sweep export: for a registered view list, ALL continuations "CreateInst(i); Collect" at once (a
 \* set of behaviours sharing the prefix `views`).  Streams(i, views) does not depend on the other
 \* instruments, so the replayer may realise several continuations in one provider as long as
 \* (meter, name) stays unique.
 SweepCases == {[i |-> [i EXCEPT !.meter = i.meter.id], exp |-> Streams(i, views, {}), alts |-> Alts(i, views),
-                 tags |-> CaseTags(i)] :
+                 tags |-> CaseTags(i), rxtags |-> RxTags(i)] :
                  i \in {i \in InstDomain : \A k \in 1..Len(views) : ~Open(views[k].msel, i.meter)}}
 EmitSweep == phase = "views" => PrintT(<<"BEHS", ToJson([views |-> views, cases |-> SweepCases])>>)
 
@@ -265,6 +332,8 @@ Types2     == {"Counter", "ObsGauge"}
 PatsAll    == AllPats
 Pats3      == {P("exact", <<"x", "a">>), P("prefix", <<"x">>), P("all", <<>>)}
 PatAllOnly == {P("all", <<>>)}
+PatsRx     == RxPats
+PatsMix    == Pats3 \cup RxPats
 Pats2      == {P("all", <<>>), P("exact", <<"z", "z">>)}
 UnitSelAll == AllUnits
 UnitSel2   == {"", "ms"}
@@ -279,6 +348,9 @@ ShapesAll  == AllShapes
 Shapes2    == {Sh("v", "d", "default", "none"), Sh("", "", "last", "k1")}
 Shape1     == {Sh("v", "", "default", "none")}
 INamesAll  == AllNames
+INamesRx   == RxNames
+INamesMix  == AllNames \cup RxNames
+Types1     == {"Counter"}
 IName1     == {<<"x", "a">>}
 IUnitsAll  == AllUnits
 IUnits2    == {"ms", "By"}
